@@ -30,13 +30,24 @@ type config struct {
 	elecBase uint64
 	defNI    string
 	vrf      string
+	// Timing variants of a still conformant set-up, which make timing assumptions of the
+	// tests visible: respDelay delays every Modify response, reqDelay delays the server's
+	// handling of every request, sendDelay delays every enqueue inside the client library
+	// (yield point client.q.beforeSend), recvDelay delays the client library's handling of every
+	// received message or stream error (yield point client.recv.beforeHandle).
+	respDelay, reqDelay, sendDelay, recvDelay time.Duration
 }
 
 var configs = []config{
-	{"base1/default-names", 1, server.DefaultNetworkInstanceName, "NON-DEFAULT-VRF"},
-	{"base1000/renamed", 1000, "default-ni", "vrf-1"},
-	{"base2^32/unicode", 1 << 32, "défaut·网络", "vrf with spaces"},
-	{"base2^63-2^20/default-names", 1<<63 - 1<<20, server.DefaultNetworkInstanceName, "NON-DEFAULT-VRF"},
+	{"base1/default-names", 1, server.DefaultNetworkInstanceName, "NON-DEFAULT-VRF", 0, 0, 0, 0},
+	{"base1000/renamed", 1000, "default-ni", "vrf-1", 0, 0, 0, 0},
+	{"base2^32/unicode", 1 << 32, "défaut·网络", "vrf with spaces", 0, 0, 0, 0},
+	{"base2^63-2^20/default-names", 1<<63 - 1<<20, server.DefaultNetworkInstanceName, "NON-DEFAULT-VRF", 0, 0, 0, 0},
+	{"base7/slow-responses-3ms", 7, server.DefaultNetworkInstanceName, "NON-DEFAULT-VRF", 3 * time.Millisecond, 0, 0, 0},
+	{"base7/slow-request-handling-3ms", 7, server.DefaultNetworkInstanceName, "NON-DEFAULT-VRF", 0, 3 * time.Millisecond, 0, 0},
+	{"base7/slow-client-enqueue-2ms", 7, server.DefaultNetworkInstanceName, "NON-DEFAULT-VRF", 0, 0, 2 * time.Millisecond, 0},
+	{"base7/slow-client-receive-3ms", 7, server.DefaultNetworkInstanceName, "NON-DEFAULT-VRF", 0, 0, 0, 3 * time.Millisecond},
+	{"base7/slow-client-enqueue-2ms+receive-6ms", 7, server.DefaultNetworkInstanceName, "NON-DEFAULT-VRF", 0, 0, 2 * time.Millisecond, 6 * time.Millisecond},
 }
 
 // newServer builds a reference server whose default NI and VRF carry the configured names.
@@ -112,7 +123,11 @@ func TestCheck(t *testing.T) {
 	nPerm := run.Pick(6, 40)
 	nCfg := len(configs)
 	for c := 0; c < nCfg; c++ {
-		for p := 0; p < nPerm; p++ {
+		np := nPerm
+		if configs[c].respDelay+configs[c].reqDelay+configs[c].sendDelay+configs[c].recvDelay > 0 {
+			np = run.Pick(2, 10) // the timing variants are slow by construction
+		}
+		for p := 0; p < np; p++ {
 			jobs = append(jobs, job{fmt.Sprintf("conformant:%d:%d", c, p)})
 		}
 	}
@@ -133,7 +148,7 @@ func TestCheck(t *testing.T) {
 	run.Set("compliance_tests_in_suite", len(compliance.TestSuite))
 	run.Set("fault_catalogue", faultNames())
 	run.Assume("the reference server wrapped by a traffic-rewriting proxy is a faithful single-requirement violator: a control sample of unrelated tests must still pass under each fault")
-	run.Finish("conformant half: the whole compliance.TestSuite run in seeded random permutations on ONE long-lived in-memory reference server per configuration (plus a second one without forward references for the tests that require it), fresh fluent clients on their own transports per test, for election bases 1 / 1000 / 2^32 / 2^63-2^20 and renamed / unicode network-instance names; every non-skipped test must pass in every order and configuration; all 6 orders of the forward-reference trio. Faulty half: a catalogue of proxies around the reference server, each breaking one protocol requirement by rewriting requests or responses; every compliance test written for that requirement must FAIL (captured by a fatal-capturing testing.TB), a control sample of unrelated tests must still pass. Distinct = by (configuration, permutation) and (fault, test)", 10, false)
+	run.Finish("conformant half: the whole compliance.TestSuite run in seeded random permutations on ONE long-lived in-memory reference server per configuration (plus a second one without forward references for the tests that require it), fresh fluent clients on their own transports per test, for election bases 1 / 1000 / 2^32 / 2^63-2^20 and renamed / unicode network-instance names, plus four timing variants of the same conformant set-up (slow responses, slow request handling, slow client enqueue, slow client receive - injected through a proxy and the client's yield points); every non-skipped test must pass in every order and configuration; all 6 orders of the forward-reference trio. Faulty half: a catalogue of proxies around the reference server, each breaking one protocol requirement by rewriting requests or responses; every compliance test written for that requirement must FAIL (captured by a fatal-capturing testing.TB), a control sample of unrelated tests must still pass. Distinct = by (configuration, permutation) and (fault, test)", 10, false)
 }
 
 func faultNames() []string {
@@ -190,7 +205,22 @@ func conformant(col *child.Collector, wr *child.Writer, sp *child.Spec, cfg conf
 		col.Fatal(err.Error())
 		return
 	}
-	em, es := &env{gs: drv.Serve(main)}, &env{gs: drv.Serve(strict)}
+	var im, is spb.GRIBIServer = main, strict
+	if cfg.respDelay > 0 || cfg.reqDelay > 0 {
+		im, is = slowProxy(main, cfg.respDelay, cfg.reqDelay), slowProxy(strict, cfg.respDelay, cfg.reqDelay)
+	}
+	if cfg.sendDelay > 0 || cfg.recvDelay > 0 {
+		client.VerifSetPoint(func(name string) {
+			switch {
+			case name == "client.q.beforeSend" && cfg.sendDelay > 0:
+				time.Sleep(cfg.sendDelay)
+			case name == "client.recv.beforeHandle" && cfg.recvDelay > 0:
+				time.Sleep(cfg.recvDelay)
+			}
+		})
+		defer client.VerifSetPoint(nil)
+	}
+	em, es := &env{gs: drv.Serve(im)}, &env{gs: drv.Serve(is)}
 	defer em.gs.Stop()
 	defer es.gs.Stop()
 	r := rand.New(rand.NewSource(sp.Seed*7919 + int64(perm)*104729 + int64(len(cfg.name))))
